@@ -82,7 +82,7 @@ BAD_HEADS / POISON_PARSE / POISON_FACTORY / JUNK     malformed members
 split_responses(wire, *, head_ids=(), connect_ids=()) -> [RespRec dict]       independent minimal response framer
     status line, Content-Length / chunked / close-delimited, 1xx/204/304 (and HEAD ids) bodiless,
     2xx to a CONNECT id = tunnel (rest of the wire is tunnel data); fields:
-    start hend end complete status minor sl (status line bytes) cl te close id fr chunks bodylen
+    start hend end complete status minor sl (status line bytes) cl te close ka id fr chunks bodylen
     garbage; fr in none|cl|chunked|close|tunnel.  A status line found where a chunk-size line is
     expected marks the record garbage and the splitter resynchronises there.  A close-delimited response is reported
     complete=False: the caller decides (complete iff the server closed).  The TLA+ monitors
@@ -648,7 +648,7 @@ def split_responses(wire: bytes, *, head_ids: Tuple[int, ...] = (), connect_ids:
     n = len(wire)
     while pos < n:
         r: Dict[str, Any] = {"start": pos, "hend": -1, "end": n, "complete": False, "status": 0, "minor": 1,
-                             "sl": [], "cl": -1, "te": False, "close": False, "id": 0, "fr": "none",
+                             "sl": [], "cl": -1, "te": False, "close": False, "ka": False, "id": 0, "fr": "none",
                              "chunks": [], "bodylen": 0, "garbage": False}
         out.append(r)
         he = wire.find(b"\r\n\r\n", pos)
@@ -675,6 +675,8 @@ def split_responses(wire: bytes, *, head_ids: Tuple[int, ...] = (), connect_ids:
                 r["te"] = True
             elif k == b"connection" and b"close" in v.lower():
                 r["close"] = True
+            elif k == b"connection" and b"keep-alive" in v.lower():
+                r["ka"] = True
             elif k == b"x-id" and v.isdigit() and len(v) < 9:
                 r["id"] = int(v)
         st = r["status"]
